@@ -656,3 +656,52 @@ def c14_presentation_ground(repo, tier):
                              "status": "proved" if ok else "refuted", "detail": json.dumps(r["bad"][:3]), "witness": r["bad"][:3],
                              "confirmed": not ok}],
             "samples": [{"cases": r["cases"]}]}
+
+
+def c17_device_state_shapes(repo):
+    """shapes of the items that report whether a pump-class device / blower runs (state keys of GeckoConstants.DEVICES)"""
+    keys = ("P1", "P2", "P3", "P4", "P5", "BL", "Waterfall")
+    shapes = {}
+    for m in all_modules(repo):
+        for it in m.get("items", []):
+            if it["key"] in keys and it["cls"] in ("GeckoBoolStructAccessor", "GeckoEnumStructAccessor"):
+                sh = shape_of(it)
+                e = shapes.setdefault(sh, {"example": "%s:%s" % (m["module"], it["key"]), "raw": it, "count": 0})
+                e["count"] += 1
+    out = []
+    for sh in sorted(shapes, key=repr):
+        e = shapes[sh]
+        it = e["raw"]
+        out.append({"cls": sh[0], "bitpos": sh[1], "items": list(sh[2]) if sh[2] is not None else None, "items_raw": it.get("items"),
+                    "size": sh[3], "maxitems": sh[4], "readonly": sh[5], "rw": it["rw"], "count": e["count"], "example": e["example"],
+                    "id": hashlib.sha1(repr(sh).encode()).hexdigest()[:10]})
+    return out
+
+
+C14_TEMPERATURE_KEYS = ["SetpointG", "MinSetpointG", "MaxSetpointG", "RhWaterTemp", "RealSetPointG", "DisplayedTempG", "OTActSetpointG",
+                        "DisplayedTemp_G", "RH_WaterTemp", "RH_TriacTemp", "RhTriacTemp", "Prog1SetpointG", "Prog2SetpointG", "UserSetpointG",
+                        "RoomTempG", "K1000TempG", "ShowerValveTempC"]
+
+
+def c14_temp_items_ground(repo, tier):
+    """GROUND over all table modules: every temperature item (the 17 keys the audited tables declare as temperatures, and any
+    key some table declares as one) is a GeckoTempStructAccessor wherever it appears -- so it is presented in degrees on
+    every pack"""
+    obs = []
+    n = 0
+    declared = set(C14_TEMPERATURE_KEYS)
+    mods = all_modules(repo)
+    for m in mods:
+        for it in m.get("items", []):
+            if it["cls"] == "GeckoTempStructAccessor":
+                declared.add(it["key"])
+    bad = []
+    for m in mods:
+        for it in m.get("items", []):
+            if it["key"] in declared:
+                n += 1
+                if it["cls"] != "GeckoTempStructAccessor":
+                    bad.append({"module": m["module"], "key": it["key"], "declared_as": it["cls"]})
+    obs.append({"name": "temperature-items-are-temperature-accessors-in-every-table(%d items, %d keys)" % (n, len(declared)),
+                "status": "proved" if not bad and n > 0 else "refuted", "detail": json.dumps(bad[:5]), "witness": bad[:5], "confirmed": bool(bad)})
+    return {"name": "tables", "backend": "ground-eval(ast literal tables)", "obligations": obs, "samples": [{"items": n}]}
